@@ -111,6 +111,9 @@ def check_honest(item):
     fname, case = item
     L = common.lib(CFG)
     fn = cat.CAT[fname]
+    if 'proto' not in case:                      # bakeKDF, bake.SWU: plain reference comparison
+        msg, ret = common.check_ref_case(item, CFG)
+        return (('%s: %s' % (fname, msg)) if msg else None), ret, 'ref'
     res = common.run_fn(L, fname, case)
     if res['ret']:
         if 'steps' in res:
@@ -132,16 +135,17 @@ def honest_part(chk, cases):
     shapes = set()
     for (fname, case), r in zip(cases, res):
         rec = {'cfg': CFG, 'kind': 'case', 'fn': fname, 'case': cat.enc_case(case)}
-        sc = '%s l=%d kca=%d kcb=%d' % ((fname, case['l']) + flags(case))
+        lv = case.get('l', 0)
+        sc = '%s l=%d kca=%d kcb=%d' % ((fname, lv) + (flags(case) if 'proto' in case else (0, 0)))
         if isinstance(r, dict):
-            chk.violation('honest:%s:l=%d:crash' % (fname, case['l']), rec, '%s: %s %s [%s]' % (
+            chk.violation('honest:%s:l=%d:crash' % (fname, lv), rec, '%s: %s %s [%s]' % (
                 fname, r.get('crash') or 'harness error', (r.get('stderr') or r.get('harness_error') or '')[-600:], cat.short(case)))
             continue
         msg, ret, cause = r
         shapes.add(sc)
         chk.outcome('%s honest -> %s' % (fname, 'agreed key' if not msg else cause))
         if msg:
-            chk.violation('honest:%s:l=%d:%s' % (fname, case['l'], cause), rec, '%s  [%s]' % (msg, cat.short(case)))
+            chk.violation('honest:%s:l=%d:%s' % (fname, lv, cause), rec, '%s  [%s]' % (msg, cat.short(case)))
     chk.part('honest_dialogues', states=len(shapes), transitions=len(cases), traces_validated_against_impl=len(cases), evaluations=len(cases),
              distinct_nontrivial=len(shapes))
     for i in (0, len(cases) // 2, len(cases) - 1):
